@@ -465,8 +465,32 @@ func skolemizeExists(h string, ctr *int, decls *strings.Builder, sks *[]string) 
 func (fx *FuncCtx) buildQuery(hyps []Term, goal Term) string {
 	var skDecls string
 	var sks []string
-	if strings.HasPrefix(goal.S, "(forall ((") {
-		goal, sks, skDecls = skolemizeGoal(goal)
+	// peel implications (antecedent becomes a hypothesis) and leading universal quantifiers (skolemized)
+	for round := 0; round < 8; round++ {
+		if strings.HasPrefix(goal.S, "(forall ((") {
+			g2, s2, d2 := skolemizeGoal(goal)
+			if len(s2) == 0 {
+				break
+			}
+			// distinct skolem names across rounds
+			for _, s := range s2 {
+				ns := fmt.Sprintf("%s_%d", s, round)
+				g2.S = replaceSym(g2.S, s, ns)
+				d2 = strings.Replace(d2, "(declare-const "+s+" ", "(declare-const "+ns+" ", 1)
+				sks = append(sks, ns)
+			}
+			goal, skDecls = g2, skDecls+d2
+			continue
+		}
+		if strings.HasPrefix(goal.S, "(=> ") {
+			n := parseSx(goal.S)
+			if len(n.kids) == 3 {
+				hyps = append(append([]Term{}, hyps...), Term{n.kids[1].String(), SBool})
+				goal = Term{n.kids[2].String(), SBool}
+				continue
+			}
+		}
+		break
 	}
 	{
 		var db strings.Builder
